@@ -142,6 +142,12 @@ static std::vector<Call> alphabet() {
     A.push_back({"p1 verbose 'x;'", p1("x;", true)});
     A.push_back({"p1 context_parse 'a=b;c=d;'", []() { std::string log; t_log = &log; seam_stream es; Ctx c; std::string s("a=b;c=d;");
         auto r = H1.p->context_parse(c, parse_options{}, seam_buffer(s), es); t_log = nullptr; return Obs{show(r) + "|" + log + "|" + es.text + "|ctx=" + std::to_string(c.counter)}; }});
+    // the library's own buffer kinds and non-default options (paths that depend on the iterator type and on the options)
+    auto p1sv = [](const char* in, bool ws, bool nl) { return [in, ws, nl]() { std::string log; t_log = &log; std::ostringstream es; std::string s(in);
+        auto r = H1.p->parse(parse_options{}.set_skip_whitespace(ws).set_skip_newline(nl), string_view_buffer(std::string_view(s)), es); t_log = nullptr; return Obs{show(r) + "|" + log + "|" + es.str()}; }; };
+    A.push_back({"p1 string_view default options 'a b;\\nc;'", p1sv("a b;\nc;", true, true)});
+    A.push_back({"p1 string_view skip_newline=false 'a;\\nb;'", p1sv("a;\nb;", true, false)});
+    A.push_back({"p1 string_buffer skip_whitespace=false 'a;b;'", []() { std::string log; t_log = &log; std::ostringstream es; auto r = H1.p->parse(parse_options{}.set_skip_whitespace(false), string_buffer("a;b; c;"), es); t_log = nullptr; return Obs{show(r) + "|" + log + "|" + es.str()}; }});
     A.push_back({"p1 write_diag_str", []() { std::ostringstream o; H1.p->write_diag_str(o); return Obs{std::to_string(o.str().size()) + ":" + std::to_string(std::hash<std::string>{}(o.str()))}; }});
     auto p2 = [](const char* in) { return [in]() { std::string log; t_log = &log; seam_stream es; std::string s(in); auto r = H2.p->parse(parse_options{}, seam_buffer(s), es); t_log = nullptr; return Obs{show(r) + "|" + log + "|" + es.text}; }; };
     A.push_back({"p2 accept '12,3,40'", p2("12,3,40")});
@@ -251,7 +257,9 @@ static int run_sched(int bound, int shard, int nshards) {
     std::vector<std::string> iso(A.size());
     for (size_t k = 0; k < A.size(); ++k) { int st = 0; std::string out = in_child([&] { H1 = build_protected<P1>(make_p1); H2 = build_protected<P2>(make_p2); Obs o = A[k].run(); std::printf("OBS %s\n", json_escape(o.text).c_str()); }, &st); size_t p = out.find("OBS "); iso[k] = p == std::string::npos ? "?" : out.substr(p + 4, out.find('\n', p) - p - 4); }
     // pairs of calls that share one parser object
-    std::vector<std::pair<size_t, size_t>> pairs = {{0, 1}, {1, 0}, {1, 3}, {6, 0}, {0, 0}, {4, 1}, {5, 6}, {8, 9}, {9, 10}, {7, 1}};
+    auto idx = [&](const char* prefix) { for (size_t k = 0; k < A.size(); ++k) if (std::string(A[k].name).rfind(prefix, 0) == 0) return k; std::printf("{\"harness_error\": \"no call %s\"}\n", prefix); std::exit(2); };
+    size_t acc = idx("p1 accept"), rec = idx("p1 recover"), lexe = idx("p1 lexical"), ctx = idx("p1 context_parse"), frec = idx("p1 failing recovery"), verb = idx("p1 verbose"), diag = idx("p1 write_diag_str"), q1 = idx("p2 accept"), q2 = idx("p2 syntax"), q3 = idx("p2 lexical"), sv1 = idx("p1 string_view default"), sv2 = idx("p1 string_view skip_newline");
+    std::vector<std::pair<size_t, size_t>> pairs = {{acc, rec}, {rec, acc}, {rec, lexe}, {ctx, acc}, {acc, acc}, {frec, rec}, {verb, ctx}, {q1, q2}, {q2, q3}, {diag, rec}, {sv1, sv2}, {sv2, rec}};
     long execs = 0, failures = 0, points = 0; std::string first; size_t maxpoints = 0; size_t npairs = 0;
     for (size_t pi = 0; pi < pairs.size(); ++pi) {
         if ((int)(pi % (size_t)nshards) != shard) continue;   // shards split the work by pair of calls
